@@ -5,8 +5,18 @@ RejFile == IOEnv.VERIF_REJ
 VARIABLE row
 Init == row = 0
 Next == row = 0 /\ row' \in 1..Len(Obs)
-Emit == row = 0 \/ (Obs[row].ok =>
-          \A x \in MavenViolations(Obs[row].universe, Obs[row].root, Obs[row].graph, Obs[row].softonly) :
-             CSVWrite("%1$s", <<ToJson([law |-> x[1], n |-> row, k |-> x[2]])>>, RejFile))
+\* records replayed from MavenResolveMC carry the graph the algorithm model returns: the real resolver must return the same
+\* (same nodes in creation order with the same errors, same edges); a difference is reported as information - the verdict on
+\* C07 is always the laws evaluated on the REAL graph - and tells that MavenResolve.tla no longer describes the code
+HasModel(o) == "model" \in DOMAIN o
+AsSet(s) == {s[i] : i \in 1..Len(s)}
+ModelDiff(o) == IF ~HasModel(o) THEN {}
+                ELSE IF o.model.fatal # (~o.ok) THEN {"info-resolver-error-differs-from-algorithm-model"}
+                ELSE IF o.ok /\ (o.graph.nodes # o.model.nodes \/ AsSet(o.graph.edges) # AsSet(o.model.edges)) THEN {"info-graph-differs-from-algorithm-model"}
+                ELSE {}
+LawsOK(o) == o.ok => \A x \in MavenViolations(o.universe, o.root, o.graph, o.softonly) :
+                        CSVWrite("%1$s", <<ToJson([law |-> x[1], n |-> row, k |-> x[2]])>>, RejFile)
+ModelOK(o) == \A l \in ModelDiff(o) : CSVWrite("%1$s", <<ToJson([law |-> l, n |-> row, k |-> 0])>>, RejFile)
+Emit == row = 0 \/ (LawsOK(Obs[row]) /\ ModelOK(Obs[row]))
 ASSUME CSVWrite("%1$s", <<ToJson([law |-> "stats", n |-> Len(Obs), k |-> 0])>>, RejFile)
 =============================================================================
